@@ -299,6 +299,29 @@ theorem fd_rebuild_equal (ps : List (Nat × FVal)) :
   show hashOf (FD.ofPairs ps).rebuild.items = hashOf (FD.ofPairs ps).items
   rw [hr]
 
+/-- pickle / deepcopy of any FrozenDict `s` whose hash is ALREADY cached (under any atom hashing `ρ`): the
+    clone carries no hash of its own, so wherever it comes to life (atoms hashing as `ρ'` - another
+    process, another hash seed, re-created identity-hashed objects) its hash is the hash of ITS OWN
+    items, i.e. that of a fresh FrozenDict built from them, and of every dict-equal FrozenDict there -/
+theorem fd_clone_hash_own_items (ρ ρ' : Nat → Nat) (s : FD) :
+    ((s.hashIn ρ).1.rebuild.hashIn ρ').2 = hashOfIn ρ' (s.hashIn ρ).1.rebuild.items ∧
+    ((s.hashIn ρ).1.rebuild.hashIn ρ').2 = ((FD.ofPairs (s.hashIn ρ).1.rebuild.items).hashIn ρ').2 ∧
+    (s.hashIn ρ).1.cloneHashOwn ρ ρ' = true ∧
+    ∀ qs, dictEq (s.hashIn ρ).1.rebuild.items (FD.ofPairs qs).items = true →
+      ((s.hashIn ρ).1.rebuild.hashIn ρ').2 = ((FD.ofPairs qs).hashIn ρ').2 := by
+  have key : ∀ t : FD, (t.rebuild.hashIn ρ').2 = hashOfIn ρ' t.rebuild.items ∧
+      ((FD.ofPairs t.rebuild.items).hashIn ρ').2 = hashOfIn ρ' t.rebuild.items := by
+    intro t
+    refine ⟨FD.hashIn_fresh ρ' _ rfl, ?_⟩
+    rw [FD.hashIn_fresh ρ' _ rfl, FD.ofPairs_items_of_nodup _ (FD.rebuild_nodup t)]
+  obtain ⟨h1, h2⟩ := key (s.hashIn ρ).1
+  refine ⟨h1, h1.trans h2.symm, ?_, ?_⟩
+  · unfold FD.cloneHashOwn
+    rw [FD.hashIn_idem, h1, h2]; simp
+  · intro qs hq
+    rw [h1, FD.hashIn_fresh ρ' _ rfl]
+    exact hashOfIn_eq_of_dictEq ρ' _ _ (FD.rebuild_nodup _) (FD.ofPairs_nodup qs) hq
+
 /-- `updated(pairs)`: a key of `pairs` gets its last value there, every other key keeps its value -/
 theorem fd_updated_spec (s : FD) (ps : List (Nat × FVal)) (k : Nat) (v : FVal) (a : Nat) :
     lookup a (s.updated (ps ++ [(k, v)])).items = if a = k then some v else lookup a (s.updated ps).items := by
@@ -309,6 +332,10 @@ theorem fd_updated_spec (s : FD) (ps : List (Nat × FVal)) (k : Nat) (v : FVal) 
 example : dictEq (FD.ofPairs [(1, .h 3), (2, .h 0), (1, .h 4)]).items (FD.ofPairs [(2, .h 0), (1, .h 4)]).items = true := by decide
 example : (FD.ofPairs [(1, .h 3), (2, .h 0), (1, .h 4)]).hash.2 = some [(1, 4), (2, 0)] := by decide
 example : (FD.ofPairs [(1, .h 3), (2, .u 0)]).hash.2 = none := by decide
+/-- the situation of `fd_clone_hash_own_items`: cached hash under `id`, clone hashed under another `ρ'`;
+    a clone that kept the cache would answer `[(1, 3), (2, 100)]` instead -/
+example : (((FD.ofPairs [(2, .h 100), (1, .h 3)]).hashIn id).1.rebuild.hashIn (fun n => 7 * n + 3)).2
+    = some [(10, 24), (17, 703)] := by decide
 example : ((FD.ofPairs [(1, .h 3)]).run [.hash, .mutate .clear, .mutate (.setitem 2 (.h 2)), .hash]).items = [(1, .h 3)] := by decide
 
 end C17
